@@ -344,15 +344,15 @@ impl Sync for CopiaSync {
         delta: &Delta,
         mut output: W,
     ) -> Result<()> {
-        // Invariant: expected output matches source size
-        debug_assert_eq!(
-            delta.expected_output_size(),
-            delta.source_size,
-            "expected output size must equal source size"
-        );
-
         // Validate delta first
         delta.validate()?;
+
+        // The declared source size is untrusted input (the delta may come from a
+        // file or the wire): operations that do not add up to it mean a malformed
+        // delta. Report that as an error instead of asserting on it.
+        if delta.expected_output_size() != delta.source_size {
+            return Err(CopiaError::CorruptedDelta);
+        }
 
         let mut hasher = blake3::Hasher::new();
         let mut bytes_written: u64 = 0;
